@@ -1455,7 +1455,7 @@ BASE_MODELS = [
     (P(r'^Box::<\[.*; \d+\]>::new_uninit$'), m_box_new_uninit),
     (P(r'box_assume_init_into_vec_unsafe'), m_box_into_vec),
     # Display of grex types via ToString: keep last so that the str/String/char cases win
-    (P(r'^<[\w:]+ as ToString>::to_string$'), m_display_to_string),
+    (P(r"^<[\w:<>' ]+ as ToString>::to_string$"), m_display_to_string),
 ]
 
 MODEL_DOC.update({
